@@ -1647,6 +1647,8 @@ static int cfg_parse_internal(cfg_t *cfg, int level, int force_state, cfg_opt_t 
 	return STATE_EOF;
 
 error:
+	/* Arguments collected for a function call that never took place */
+	cfg_free_value(&funcopt);
 	if (opttitle)
 		free(opttitle);
 	if (comment)
